@@ -155,74 +155,72 @@ end
 /-! ## Regular type pairs
 
 `dynamicReplace` computes the type of the result for a null or unknown input; its
-doc comment says it "assumes that in and out are compatible".  `regular inT out`
+doc comment says it "assumes that in and out are compatible".  `regular E inT out`
 spells that assumption out, position by position (the positions `dynamicReplace`
 itself pairs up), for a placeholder-free `out`: an object target faces a map or an
-object, a tuple target a tuple that is at least as long.  It also asks that the
-optional attributes of an object target that faces a *map* carry no optional
-annotation inside their own type (conversionMapToObject fills a missing one with a
-null of that type as written). -/
+object, a tuple target a tuple that is at least as long; where a list / set / map
+target faces a tuple / object, `dynamicReplace` continues with the *unified* type of
+the elements / attributes (`E.unify`), so that type must be compatible with the
+target's element type as well as every element / attribute type itself. -/
 mutual
-def regular : (inT out : Ty) → Bool
+def regular (E : Env) : (inT out : Ty) → Bool
   | inT, out =>
     if inT.isDyn then true
     else match out with
       | .map oe =>
         match inT with
-        | .map ie => regular ie oe
-        | .object _ its _ => its.all fun it => regular it oe
+        | .map ie => regular E ie oe
+        | .object _ its _ =>
+          (its.all fun it => regular E it oe) &&
+            (match E.unifyG true its with
+             | none => true
+             | some u => regular E u oe)
         | _ => true
       | .list oe | .set oe =>
         match inT with
-        | .list ie | .set ie => regular ie oe
-        | .tuple its => its.all fun it => regular it oe
+        | .list ie | .set ie => regular E ie oe
+        | .tuple its =>
+          (its.all fun it => regular E it oe) &&
+            (match E.unifyG true its with
+             | none => true
+             | some u => regular E u oe)
         | _ => true
       | .object on ots oo =>
         match inT with
-        | .map ie => regularAll ie ots && optFlat ots oo
-        | .object inn its ios => regularObj inn its ios on ots
+        | .map ie => regularAll E ie ots
+        | .object inn its ios => regularObj E inn its ios on ots
         | _ => false
       | .tuple ots =>
         match inT with
-        | .tuple its => decide (ots.length ≤ its.length) && regularZip its ots
+        | .tuple its => decide (ots.length ≤ its.length) && regularZip E its ots
         | _ => false
       | _ => true
 termination_by structural _ out => out
-def regularAll : Ty → List Ty → Bool
+def regularAll (E : Env) : Ty → List Ty → Bool
   | _, [] => true
-  | ie, o :: os => regular ie o && regularAll ie os
+  | ie, o :: os => regular E ie o && regularAll E ie os
 termination_by structural _ os => os
-def regularObj : List String → List Ty → List Bool → List String → List Ty → Bool
+def regularObj (E : Env) : List String → List Ty → List Bool → List String → List Ty → Bool
   | inn, its, ios, n :: ns, o :: os =>
     (match Ty.find n inn its ios with
-     | some (it, _) => regular it o
-     | none => true) && regularObj inn its ios ns os
+     | some (it, _) => regular E it o
+     | none => true) && regularObj E inn its ios ns os
   | _, _, _, _, _ => true
 termination_by structural _ _ _ _ os => os
-def regularZip : List Ty → List Ty → Bool
-  | it :: its, o :: os => regular it o && regularZip its os
+def regularZip (E : Env) : List Ty → List Ty → Bool
+  | it :: its, o :: os => regular E it o && regularZip E its os
   | _, _ => true
 termination_by structural _ os => os
-/-- optional attributes carry no optional annotation inside -/
-def optFlat : List Ty → List Bool → Bool
-  | t :: ts, o :: os => (!o || !t.hasOpt) && optFlat ts os
-  | _, _ => true
-termination_by structural ts => ts
 end
 
 /-! ## What the theorems assume of the parameters -/
 
-/-- laws of the `unify` parameter used by the C08 theorems (both are statements
-about unify.go that property C09 owns; the harness probes them on the real
-`convert.Unify / UnifyUnsafe`):
-* types that are all the same unify to that type;
-* the unified type is as compatible with a target (in the sense of `regular`) as
-  the types it was unified from. -/
+/-- the law of the `unify` parameter used by the C08 theorems (a statement about
+unify.go that property C09 owns; the harness probes it on the real
+`convert.Unify / UnifyUnsafe`): types that are all the same unify to that type. -/
 structure UnifyLaws (E : Env) : Prop where
   same : ∀ (uns : Bool) (t : Ty) (ts : List Ty), ts ≠ [] → (∀ x ∈ ts, x = t) →
     t.wf = true → t.hasOpt = false → E.unify uns ts = some t
-  repl : ∀ (ts : List Ty) (u oe : Ty), E.unifyG true ts = some u →
-    (∀ t ∈ ts, regular t oe = true) → regular u oe = true
 
 /-- the set parameters never panic or report an error (they may be `.unmodelled`) -/
 structure SetLaws (E : Env) : Prop where
